@@ -25,6 +25,7 @@ type VEvent struct {
 	Node  int    `json:"node,omitempty"`  // RP/RS/HT target; LC new leader
 	Split bool   `json:"split,omitempty"` // RP: one StoreLogs per entry instead of one batch
 	Fail  bool   `json:"fail,omitempty"`  // LA/RP: the node's store fails the (first) StoreLogs once; the call is then retried
+	Lost  bool   `json:"lost,omitempty"`  // RP: the follower's store fails the StoreLogs and the batch is not submitted again by this event (a later replication, possibly by another leader, brings the entries)
 	CP2   bool   `json:"cp2,omitempty"`   // LA: every entry of the batch is a checkpoint (several checkpoints in one StoreLogs)
 }
 
@@ -52,6 +53,9 @@ func (e VEvent) String() string {
 		}
 		if e.Fail {
 			s += ",fail+retry"
+		}
+		if e.Lost {
+			s += ",fails,not-retried"
 		}
 		return s + ")"
 	case "LC":
@@ -200,6 +204,7 @@ type VCluster struct {
 	Viol     []Violation
 	seq      int
 	failOnce bool
+	loseOnce bool
 	flight   *Mutation
 	// per-report verdict bookkeeping
 	Checked       int
@@ -332,6 +337,18 @@ func (c *VCluster) conflictIndex(f *vnode) uint64 {
 }
 
 func (c *VCluster) storeOn(nd *vnode, logs []*raft.Log) error {
+	if c.loseOnce {
+		c.loseOnce = false
+		nd.cs.failNext = true
+		first := make([]*raft.Log, len(logs))
+		for i, l := range logs {
+			first[i] = cloneLog(l)
+		}
+		if err := nd.v.StoreLogs(first); err == nil {
+			return fmt.Errorf("injected store failure was swallowed")
+		}
+		return nil // nothing stored, nothing handed over for good
+	}
 	for _, l := range logs {
 		nd.handed[l.Index] = cloneLog(l)
 	}
@@ -356,6 +373,7 @@ func (c *VCluster) storeOn(nd *vnode, logs []*raft.Log) error {
 func (c *VCluster) Apply(e VEvent) {
 	ld := c.Nodes[c.Leader]
 	c.failOnce = e.Fail
+	c.loseOnce = e.Lost && e.K == "RP"
 	switch e.K {
 	case "LA":
 		next := c.last(ld) + 1
